@@ -16,7 +16,7 @@ USES_FACTS = True
 DRIVER = "shootmodel_det"
 
 MANIFEST = dict(
-    text="Lean 4 theorems: every Go map iteration of the generator is modelled with an explicit iteration-order oracle and the composed run is shown independent of it on well-formed inputs (distinct-key writes, existential tests, collect-then-sort, single contributor, injective alias map, unique type name); the table of map-range sites and of clock/random/environment uses is regenerated from the CURRENT source and must be covered, and in every distinct-keys site the map writes of the loop body are indexed by the range key itself (C07_distinct_key_writes: a transformed key could collide); generated files are read back only through the accessor-interface look-up of embedded types (stale independence, step level and - for `new -getset` lists with embedded types first - run level); running again over what a run has left is the same run for all four sub-commands (C07_fixpoint: map/enum/rest over any directory, `new` without -getset when the replaced files declared no accessor interface, `new -getset` into separate files with embedded types first; `new -getset` into one file by the correspondence only); a written file does not depend on what the directory held (C07_writes_any_dir) and the table of file-system READS of the CURRENT source is covered - main, which writes the output, reads nothing (C07_read_sites_covered, C07_output_not_read). Findings with witnesses: duplicate alias, message order, embedder-first non-fixpoint, stale all-in-one output. Tied to the code by byte comparison of the files written by the rebuilt shoot over run histories (fresh x N, repeat x N, delete+rerun, growing and SHRINKING source edits with the previous output in place vs a clean directory, separate->all-in-one->back) at two absolute locations, for generated new/map/enum/rest packages.",
+    text="Lean 4 theorems: every Go map iteration of the generator is modelled with an explicit iteration-order oracle and the composed run is shown independent of it on well-formed inputs (distinct-key writes, existential tests, collect-then-sort, single contributor, injective alias map, unique type name); the table of map-range sites and of clock/random/environment uses is regenerated from the CURRENT source and must be covered, and in every distinct-keys site the map writes of the loop body are indexed by the range key itself (C07_distinct_key_writes: a transformed key could collide); generated files are read back only through the accessor-interface look-up of embedded types (stale independence, step level and - for `new -getset` lists with embedded types first - run level); running again over what a run has left is the same run for all four sub-commands (C07_fixpoint: map/enum/rest over any directory, `new` without -getset when the replaced files declared no accessor interface, `new -getset` into separate files with embedded types first; `new -getset` into one file by the correspondence only); a written file does not depend on what the directory held (C07_writes_any_dir) and the table of file-system READS of the CURRENT source is covered - main, which writes the output, reads nothing (C07_read_sites_covered, C07_output_not_read). Findings with witnesses: embedder-first non-fixpoint, stale all-in-one output, parameter struct declared twice in the directory. The working directory is a dimension of the correspondence: the package directory as an absolute [dir] started from the package directory, the module root, a sibling directory and another module must give identical bytes (C07_pkgDir_cwd_indep for the one go/build look-up of `rest`, fixed by eb01b4a). Tied to the code by byte comparison of the files written by the rebuilt shoot over run histories (fresh x N, repeat x N, delete+rerun, growing and SHRINKING source edits with the previous output in place vs a clean directory, separate->all-in-one->back) at two absolute locations, for generated new/map/enum/rest packages.",
     note="The theorem C07_proposed_repair_fixpoint is about the PROPOSED repair notes/proposed/deps-first-and-shadow-aio.patch (not applied; codeRepair = noRepair), not about the code at HEAD. Lean kernel + standard axioms; model tied by the correspondence run and by Gen/Facts.lean (mapRangeSites, envSites). go/packages file order and go/types redeclaration handling are assumptions of the disk model (validated by the stale-output legs).",
     technique="Lean 4 proof (permutation invariance of folds, list induction) + differential run-history correspondence",
     design="5/C07")
@@ -307,8 +307,8 @@ def special_cases(rng):
                "args": ["rest", "-type=ClientA"], "nexec": 8, "payload": ["gather", ["files", ["t.go", "Name", "Size"], ["alt.go"]]]})
     # rest, struct parameter from ANOTHER package of the module; a second module (a nested directory with its own go.mod and the same
     # module path) provides the same import path with a different struct.  The command is started with the package directory as an
-    # absolute [dir]: from the module root (same module context: well-formed twin) and from the other module (finding F_pkgDirCwd:
-    # getPkgDir resolves the path from the working directory)
+    # absolute [dir]: from the module root and from the other module - since fix eb01b4a (was finding F_pkgDirCwd: getPkgDir resolved
+    # the path from the working directory) both read the struct of the package being generated
     rc = ("package rc\n\nimport (\n\t\"context\"\n\t\"net/http\"\n\n\t\"github.com/lopolopen/shoot\"\n\t\"@MOD@/c/dest\"\n)\n\n"
           "type ClientA interface {\n\tshoot.RestClient[ClientA]\n\n\t//shoot: Get(\"/orders\")\n\tM0(ctx context.Context, q dest.Query) (*http.Response, error)\n}\n")
     pfiles = {"t.go": rc, "dest/d.go": "package dest\n\ntype Query struct {\n\tFrom string\n\tPage int\n}\n",
